@@ -117,9 +117,23 @@ def fresh_singleton_local():
 
     saved_local = m.CurrentThreadSchedulerSingleton._local
     saved_global = m.CurrentThreadScheduler._global
-    cls_attr = m._Local.__dict__.get("tramp", None)
-    if cls_attr is not None:
-        m._Local.tramp = m.Trampoline()
+    # every Trampoline the module built at import time and that `_Local` can hand out — class attributes, default argument
+    # values of its methods — is replaced for the run by one built from the instrumented classes (same sharing structure)
+    from reactivex.scheduler.trampoline import Trampoline as RealTrampoline
+
+    undo = []
+    for name, val in list(vars(m._Local).items()):
+        if isinstance(val, RealTrampoline):
+            undo.append(("attr", name, val))
+            setattr(m._Local, name, m.Trampoline())
+        fn = getattr(val, "__func__", val)
+        if callable(fn) and hasattr(fn, "__defaults__"):
+            if fn.__defaults__ and any(isinstance(d, RealTrampoline) for d in fn.__defaults__):
+                undo.append(("defaults", fn, fn.__defaults__))
+                fn.__defaults__ = tuple(m.Trampoline() if isinstance(d, RealTrampoline) else d for d in fn.__defaults__)
+            if fn.__kwdefaults__ and any(isinstance(d, RealTrampoline) for d in fn.__kwdefaults__.values()):
+                undo.append(("kwdefaults", fn, dict(fn.__kwdefaults__)))
+                fn.__kwdefaults__ = {k: (m.Trampoline() if isinstance(d, RealTrampoline) else d) for k, d in fn.__kwdefaults__.items()}
     m.CurrentThreadSchedulerSingleton._local = m._Local()
     m.CurrentThreadScheduler._global = WeakKeyDictionary()
     try:
@@ -127,8 +141,13 @@ def fresh_singleton_local():
     finally:
         m.CurrentThreadSchedulerSingleton._local = saved_local
         m.CurrentThreadScheduler._global = saved_global
-        if cls_attr is not None:
-            m._Local.tramp = cls_attr
+        for kind, a, b in reversed(undo):
+            if kind == "attr":
+                setattr(m._Local, a, b)
+            elif kind == "defaults":
+                a.__defaults__ = b
+            else:
+                a.__kwdefaults__ = b
 
 
 def make_scheduler(kind):
@@ -492,12 +511,14 @@ def oracle_threads(cfg, res):
     # shared TrampolineScheduler: one drain loop at a time over all threads; no action lost; cancelled never run; never nested
     open_ = None
     cancelled, started, skipped, scheduled = set(), [], set(), []
+    due_of = {}
     for e in res["events"]:
         t, k = e[0], e[1]
         if t is None:
             continue
         if k == "sched":
             scheduled.append(e[2])
+            due_of[e[2]] = e[3]
         elif k == "cancel":
             cancelled.add(e[2])
         elif k == "skip":
@@ -509,6 +530,8 @@ def oracle_threads(cfg, res):
                 return f"action {e[2]} started after it was cancelled"
             if e[2] in started:
                 return f"action {e[2]} started twice"
+            if e[2] in due_of and e[3] < due_of[e[2]]:
+                return f"action {e[2]} started at {e[3]} before its due time {due_of[e[2]]} (on the shared trampoline, thread {t})"
             open_ = (e[2], t)
             started.append(e[2])
         elif k == "fin":
